@@ -128,7 +128,9 @@ def applicable_kinds(G, S, square):
     size = St.size(S)
     ks = ['id', 'hom']
     if all(r >= 1 for r in ranks):
-        ks += ['diag', 'diag', 'dense', 'dense']
+        ks += ['diag', 'diag']
+        if dense_forms(S):
+            ks += ['dense', 'dense']
         ks += ['index', 'index']
     if S['t'] == 'stokes':
         ks += ['hwp', 'hwp', 'rot', 'rot', 'rot']
@@ -205,8 +207,18 @@ def g_bdiag(draw, G, S):
             'vdtype': vdt(draw, G, S)}
 
 
-def g_dense(draw, G, S, square, spd=False):
+def has_stokes(S):
+    if S['t'] == 'stokes':
+        return True
+    if S['t'] == 'leaf':
+        return False
+    return any(has_stokes(c) for c in _children_in_order(S))
+
+
+def dense_forms(S):
     shapes = _shapes(S)
+    if not all(len(s) >= 1 for s in shapes):
+        return []
     single = len(shapes) == 1
     forms = []
     if len({s[0] for s in shapes}) == 1:
@@ -215,10 +227,16 @@ def g_dense(draw, G, S, square, spd=False):
         forms.append('last')
     if single and len(shapes[0]) == 2:
         forms += ['hij', 'ikj', 'kij']
-    if S['t'] in ('tuple', 'list', 'dict'):
+    if S['t'] in ('tuple', 'list', 'dict') and not has_stokes(S):
+        # (per-leaf blocks would give the components of a Stokes container different shapes)
         forms.append('per_leaf')
-    if not forms:
-        forms = ['per_leaf'] if S['t'] != 'stokes' and S['t'] != 'leaf' else ['first']
+    return forms
+
+
+def g_dense(draw, G, S, square, spd=False):
+    shapes = _shapes(S)
+    single = len(shapes) == 1
+    forms = dense_forms(S)
     form = draw(st.sampled_from(forms))
     size = St.size(S)
 
@@ -489,8 +507,9 @@ def leaf_operand(draw, G, S, square=False, kind=None):
 # reverse generation: an operator whose OUTPUT structure is S (used under transposes)
 
 
-def rev_operand(draw, G, S):
+def rev_operand(draw, G, S, forms=None):
     """Recipe X with out(X) == S (X is generally not square)."""
+    forced = forms
     shapes = _shapes(S)
     ranks = [len(s) for s in shapes]
     single = S['t'] == 'leaf'
@@ -499,7 +518,7 @@ def rev_operand(draw, G, S):
         forms += ['index', 'index', 'reshape', 'ravel', 'dense', 'move', 'pack']
     elif all(r >= 1 for r in ranks) and len({s[0] for s in shapes}) == 1:
         forms += ['index', 'dense']
-    form = draw(st.sampled_from(forms))
+    form = draw(st.sampled_from(forced or forms))
     if form == 'square':
         return leaf_operand(draw, G, S, square=True)
     if form == 'index':
@@ -570,7 +589,7 @@ def invertible(draw, G, S, closed_only=False):
     cg_ok = G.allow_cg and len({dt for _, dt in St.leaves(S)}) == 1
     if all(len(s) >= 1 for s in shapes):
         forms += ['diag', 'diag']
-        if not closed_only and cg_ok:
+        if not closed_only and cg_ok and dense_forms(S):
             forms += ['spd_dense', 'spd_dense']
     if S['t'] == 'stokes':
         forms += ['rot', 'rot']
@@ -665,12 +684,25 @@ def g_block_row(draw, G, S, depth):
 # operands and composites
 
 
-def resample(draw, r):
+def resample(draw, r, unique=False):
     """A sibling of a leaf recipe: same kind and shapes, new numeric values (for sums)."""
     r2 = dict(r)
     k = r['k']
+    if k == 'pack':
+        m = np.asarray(r['mask'], dtype=bool)
+        flat = list(draw(st.permutations(m.reshape(-1).tolist())))
+        r2['mask'] = np.asarray(flat, dtype=bool).reshape(m.shape).tolist()
+        return r2
+    if k == 'index' and unique and len(r['idx']) >= 1 and 'a' in r['idx'][0]:
+        n = min(sh_[0] for sh_ in _shapes(r['in']))
+        shp = np.shape(r['idx'][0]['a'])
+        vals = list(draw(st.permutations(list(range(n)))))[: math.prod(shp)]
+        r2['idx'] = [{'a': np.asarray(vals, dtype=int).reshape(shp).tolist()}] + list(r['idx'][1:])
+        r2['unique'] = True
+        return r2
     if k == 'hom':
-        r2['value'] = draw(st.sampled_from(VALS))
+        v = draw(st.sampled_from(VALS))
+        r2['value'] = (int(v) or 2) if r.get('ty') in ('py_int', 'np_i32') else v
     elif k in ('diag', 'bdiag'):
         r2['vals'] = _arr(draw, np.shape(r['vals']))
     elif k == 'dense':
@@ -679,7 +711,7 @@ def resample(draw, r):
         else:
             r2['blocks'] = {'per_leaf': [_arr(draw, np.shape(b)) for b in r['blocks']['per_leaf']]}
     elif k == 'index' and len(r['idx']) >= 1 and 'a' in r['idx'][0]:
-        n = _shapes(r['in'])[0][0]
+        n = min(sh_[0] for sh_ in _shapes(r['in']))
         shp = np.shape(r['idx'][0]['a'])
         cnt = math.prod(shp)
         vals = draw(st.lists(st.integers(-n, n - 1), min_size=cnt, max_size=cnt))
@@ -811,7 +843,9 @@ def snippet(draw, G, S, near=False):
         A = G.define(r)
         B = A
         if near:
-            B = G.define(dict(r))  # equal-valued but distinct object: the rule must NOT fire
+            # a distinct object of the same class and structure (equal- or different-valued): the
+            # identity-based rule must NOT fire
+            B = G.define(resample(draw, r) if r['k'] in ops.LEAF_KINDS and draw(st.booleans()) else dict(r))
         inv = {'k': 'I', 'op': A}
         return [B, inv] if draw(st.booleans()) else [inv, B]
     if name == 'rotrot':
@@ -858,9 +892,14 @@ def snippet(draw, G, S, near=False):
         ref = G.define(P)
         other = ref
         if near:
-            other = G.define(dict(P))
+            other = G.define(resample(draw, P) if draw(st.integers(0, 3)) else dict(P))
         return [ref, {'k': 'T', 'op': other}]
     if name == 'PPt':
+        if near and draw(st.booleans()):
+            # P @ Q.T with Q another duplicate-free selection of the same shape: not the identity
+            P = rev_operand_index(draw, G, S, unique=True)
+            Q = resample(draw, P, unique=True)
+            return [{'k': 'T', 'op': G.define(Q)}, G.define(P)]
         P = rev_operand_index(draw, G, S, unique=not near)
         ref = G.define(P)
         return [{'k': 'T', 'op': ref}, ref]
@@ -873,13 +912,27 @@ def snippet(draw, G, S, near=False):
             pos = sorted(list(draw(st.permutations(list(range(n)))))[:m])
             inS = St.map_leaves(S, lambda s_, dt: ((n,) + tuple(s_[1:]), dt))
             ref = G.define({'k': 'pack', 'in': inS, 'mask': [i in pos for i in range(n)]})
+            if near:
+                pos2 = sorted(list(draw(st.permutations(list(range(n)))))[:m])
+                other = G.define({'k': 'pack', 'in': inS, 'mask': [i in pos2 for i in range(n)]})
+                return [{'k': 'T', 'op': other}, ref]
             return [{'k': 'T', 'op': ref}, ref]
         ref = G.define(g_pack(draw, G, S))
         return [ref, {'k': 'T', 'op': ref}]
     if name == 'RtR':
         R = fix_reshape(g_reshape(draw, G, S)) if draw(st.booleans()) else g_ravel(draw, G, S)
         ref = G.define(R)
-        other = G.define(dict(R)) if near else ref
+        other = ref
+        if near:
+            other = G.define(dict(R))
+            V = G.out_of(R)
+            if V['t'] == 'leaf' and draw(st.booleans()):
+                # another reshape with the same OUTPUT structure but a different input structure
+                for _ in range(3):
+                    R2 = rev_operand(draw, G, V, forms=['reshape', 'ravel'])
+                    if not St.equal(R2['in'], S):
+                        other = G.define(R2)
+                        break
         return [ref, {'k': 'T', 'op': other}]
     if name == 'RRt':
         if S['t'] != 'leaf':
@@ -939,7 +992,7 @@ def g_block_diag_nested(draw, G, S):
     children are handled by ONE inner block operator (a well-typed product, but not the same layout)."""
     kids = _children_in_order(S)
     if S['t'] == 'dict' or len(kids) < 2:
-        return g_block_diag(draw, G, S, 1)
+        return g_block_diag(draw, G, S, 1, square=True)
     # a single block whose input is the whole structure S: BlockDiagonal over S's children
     inner = {'k': 'block', 'kind': 'diag',
              'blocks': _container_like(S, [leaf_operand(draw, G, c, square=True) for c in kids])}
